@@ -506,7 +506,7 @@ func c13Fresh(c *Ctx, r *Report) {
 					continue
 				}
 				cnt++
-				if _, isMake := st.Val.(*ssa.MakeSlice); !isMake {
+				if !freshSlice(st.Val, 0) {
 					ok = false
 				}
 			}
@@ -614,4 +614,51 @@ func c13Fresh(c *Ctx, r *Report) {
 	}
 	r.check(okArch && okDefault, "C13-R3-byte-order", "parseDefinitionMessage/arch-switch", c.pos(fn.Pos()), "architecture byte 0 -> little endian, 1 -> big endian, every other value is an error; set per definition", fmt.Sprintf("byte order of a definition is not set by the two-constant switch with an error default (stores: %d, mapping: %v, others rejected: %v)", nArch, got, okDefault))
 	_ = dmAlloc
+}
+
+// freshSlice: the value is a make([]T, n) of this call, or the result of a module function that
+// returns, at that position, only such makes (or nil): a helper may build the list.
+func freshSlice(v ssa.Value, depth int) bool {
+	if depth > 3 {
+		return false
+	}
+	switch n := v.(type) {
+	case *ssa.MakeSlice:
+		return true
+	case *ssa.Const:
+		return n.Value == nil
+	case *ssa.Phi:
+		for _, e := range n.Edges {
+			if !freshSlice(e, depth+1) {
+				return false
+			}
+		}
+		return true
+	case *ssa.Extract:
+		call, ok := n.Tuple.(*ssa.Call)
+		if !ok {
+			return false
+		}
+		return freshResult(call, n.Index, depth)
+	case *ssa.Call:
+		return freshResult(n, 0, depth)
+	}
+	return false
+}
+
+func freshResult(call *ssa.Call, idx int, depth int) bool {
+	g := call.Common().StaticCallee()
+	if g == nil || !strings.HasPrefix(fnPkgPath(g), modPath) || len(g.Blocks) == 0 {
+		return false
+	}
+	n := 0
+	for _, b := range g.Blocks {
+		if ret, ok := b.Instrs[len(b.Instrs)-1].(*ssa.Return); ok {
+			n++
+			if idx >= len(ret.Results) || !freshSlice(ret.Results[idx], depth+1) {
+				return false
+			}
+		}
+	}
+	return n > 0
 }
